@@ -110,7 +110,8 @@ FAMILY_AFFINITY = {
 
 
 FAMILY_AFFINITY_2 = {"gen:rms_norm": "ort:rms_normalization,softmax", "gen:fold_chain": None, "gen:user_rules": "user:commute"}
-FAMILY_AFFINITY_3 = {"gen:user_rules": [("rewrite", {"rules": "user:functions", "api": "apply"}), ("rewrite", {"rules": "user:all", "api": "ir"}),
+FAMILY_AFFINITY_3 = {"gen:local_functions": [("optimize", {"api": "inline"}), ("optimize", {"api": "proto"}), ("optimize", {"api": "ir"})],
+                     "gen:user_rules": [("rewrite", {"rules": "user:functions", "api": "apply"}), ("rewrite", {"rules": "user:all", "api": "ir"}),
                                         ("rewrite", {"rules": "user:bad_pattern", "api": "apply"})]}
 
 
